@@ -125,6 +125,13 @@ def gen_runs(rng, oracle, pool, tier):
                 inner['ch'].append(dict(linked, name='again'))
             t = [F('A.sol', pick(rng)), linked, lf, inner]
             runs.append(Run(t, cat, ps, 'symlink'))
+        # two names for the same file and for the same sub-directory (relative links to a sibling)
+        tok = F('Token.sol', pick(rng))
+        alias = dict(tok, name='Alias.sol', alias_of='Token.sol')
+        lib = D('lib', [F('In.sol', pick(rng)), D('deep', [F('E.sol', pick(rng))])])
+        vendor = dict(lib, name='vendor', alias_of='lib')
+        runs.append(Run([tok, alias, lib, vendor, F('Z.sol', pick(rng))], cat, ps, 'alias'))
+        runs.append(Run([D('x', [tok, alias]), F('Token.sol', tok['data'])], cat, ps, 'alias'))
     # 3d. identical copies of a file (same name, same content) in different directories, with another file of the
     #     same patterns before / between / after them in the listing: every copy is a finding of its own
     for cat in cats:
